@@ -249,7 +249,7 @@ func ruleMacc(r *core.Run) {
 					role = "recipient"
 				}
 				names, ok := constArgs(r, f, e.Args[pos].String(), 0)
-				baseKey := core.Key("CAP-macc", r.P.Name(f), e.Method, role)
+				baseKey := core.Key("CAP-macc", r.KeyName(f), e.Method, role)
 				if !ok {
 					r.Undecide("CAP-macc", baseKey, r.P.Pos(e.Instr.Pos()), "module-name argument "+e.Args[pos].String()+" is not a constant (nor a parameter bound to constants at all call sites)")
 					continue
@@ -299,7 +299,7 @@ func ruleBankErr(r *core.Run) {
 			}
 			n++
 			cnt[e.Method]++
-			key := core.Key("T-bankerr", r.P.Name(f), fmt.Sprintf("%s#%d", e.Method, cnt[e.Method]))
+			key := core.Key("T-bankerr", r.KeyName(f), fmt.Sprintf("%s#%d", e.Method, cnt[e.Method]))
 			v, isVal := e.Instr.(ssa.Value)
 			used := false
 			if isVal {
